@@ -3,6 +3,7 @@ import ast
 import builtins
 
 from ..common import Finding, AnalysisError
+from . import shared
 from .. import load, routes, modroute
 from ..metaeval import Obj as M_Obj
 
@@ -322,32 +323,7 @@ def run(rep, tier):
                             f'the generated constructor names its receiver `{nm}`: a class field named `{nm}` produces '
                             f'`def __init__({nm}, {nm})` (SyntaxError: duplicate argument)',
                             'sourcer/expressions/class_.py:Class._compile_class_body'))
-    # entry closures: the generated lambda binds text/pos/fullparse; user parameters of a class must
-    # be captured *outside* it, otherwise a parameter named text/pos/fullparse is shadowed
-    rep.rule('NAME-entry-shadow', 'user parameters are not read inside the generated entry closure')
-    n_entry = 0
-    for m in mods:
-        if not isinstance(m, modroute.Emitted) or getattr(m, 'route', '') == 'shipped-parser':
-            continue            # the shipped parser's user names (the metagrammar's) are not known here
-        for cname, cls in m.classes.items():
-            for meth in cls.body:
-                if isinstance(meth, ast.FunctionDef) and meth.name == 'parse' and meth.args.args \
-                        and [a.arg for a in meth.args.args] != ['text', 'pos', 'fullparse']:
-                    user = {a.arg for a in meth.args.args}
-                    for lam in [x for x in ast.walk(meth) if isinstance(x, ast.Lambda)]:
-                        n_entry += 1
-                        bound = {a.arg for a in lam.args.args}
-                        used = {x.id for x in ast.walk(lam.body) if isinstance(x, ast.Name)}
-                        hit = sorted((used & user))
-                        rep.oblige(not hit)
-                        if hit:
-                            rep.add(Finding('NAME-entry-shadow', 'class-entry', 'parse',
-                                            f'{m.label}: {cname}.parse reads the class parameter(s) {hit} inside the '
-                                            f'entry closure `lambda {", ".join(sorted(bound))}: ...`: a parameter '
-                                            f'named text, pos or fullparse is shadowed by the closure\'s own parameter',
-                                            'sourcer/expressions/class_.py:Class._compile_class_body'))
-    rep.count('entry closures examined', n_entry)
-    rep.floor('entry closures examined', n_entry, 4)
+    shared.entry_closure_rule(rep, mods)
     from . import C06
     C06.interception_table(rep)
     documented = ['Apply', 'Backtrack', 'Byte', 'Choice', 'Discard', 'Expect', 'ExpectNot', 'Fail', 'Left', 'Let',
